@@ -193,6 +193,8 @@ pub enum Ev {
     OpStart { sender: usize, op: usize, brief: String },
     OpDone { sender: usize, op: usize, res: OpResult },
     OpCancel { sender: usize, op: usize },
+    /// the sink's publish-ack callback ran (non-blocking sends): packet id, reason code, "disconnected"
+    AckCb { pid: u16, code: u8, disc: bool },
     ConnDone { conn: usize, res: String },
     /// the per-connection services (control service) were created: the dispatcher is about to run
     Session { conn: usize },
@@ -263,6 +265,9 @@ pub struct World {
     pub ready_fail_noted: Cell<bool>,
     /// `shutdown()` of the application's services parks on a gate
     pub slow_shutdown: Cell<bool>,
+    /// what the sink's publish-ack callback was called with, in call order: (pid, code, sig, disconnected)
+    pub cb_log: RefCell<Vec<(u16, u8, u64, bool)>>,
+    pub cb_wakers: RefCell<Vec<Waker>>,
 }
 
 impl World {
@@ -289,6 +294,8 @@ impl World {
             ready_fail_after: Cell::new(None),
             ready_fail_noted: Cell::new(false),
             slow_shutdown: Cell::new(false),
+            cb_log: RefCell::new(Vec::new()),
+            cb_wakers: RefCell::new(Vec::new()),
         })
     }
 
@@ -620,6 +627,33 @@ impl World {
         if s.next_op < s.n_ops {
             s.next_op += 1;
         }
+    }
+
+    /// Called from inside the sink's publish-ack callback (the library holds its queues borrowed while
+    /// it runs: nothing of the sink may be touched here).
+    pub fn ack_cb(&self, pid: u16, code: u8, sig: u64, disc: bool) {
+        self.cb_log.borrow_mut().push((pid, code, sig, disc));
+        self.ev(Ev::AckCb { pid, code, disc });
+        let ws: Vec<Waker> = self.cb_wakers.borrow_mut().drain(..).collect();
+        for w in ws {
+            w.wake();
+        }
+    }
+
+    pub fn cb_mark(&self) -> usize {
+        self.cb_log.borrow().len()
+    }
+
+    /// Resolves with the first callback invocation for `pid` recorded at or after position `from`.
+    pub async fn cb_wait(&self, pid: u16, from: usize) -> (u8, u64, bool) {
+        poll_fn(|cx| {
+            if let Some(e) = self.cb_log.borrow()[from..].iter().find(|e| e.0 == pid) {
+                return Poll::Ready((e.1, e.2, e.3));
+            }
+            self.cb_wakers.borrow_mut().push(cx.waker().clone());
+            Poll::Pending
+        })
+        .await
     }
 
     pub fn sender_op_done(&self, sidx: usize) {
